@@ -279,7 +279,9 @@ def main(argv):
         from . import battery
 
         # (b) imported necessary conditions: rules of other properties this one relies on (every tier, also in replay)
-        for modname, prefixes in battery.NEIGHBOURS.get(pid, []):
+        for modname, prefixes, *only_inst in battery.NEIGHBOURS.get(pid, []):
+            has_inst = tuple(only_inst[1]) if len(only_inst) > 1 and only_inst[1] else None  # optionally: only instances that contain one of these
+            only_inst = tuple(only_inst[0]) if only_inst and only_inst[0] else None  # optionally: only instances that start with one of these
             nb = Checker(pid, tier)
             nb.program = ck.program
             try:
@@ -288,7 +290,7 @@ def main(argv):
                 ck.undecided(prefixes[0], "imported rules", "", "imported rules failed: %s" % e)
                 continue
             for r in nb.results:
-                if any(r.rule.startswith(px) for px in prefixes) and r.instance != "instance-count":
+                if any(r.rule.startswith(px) for px in prefixes) and r.instance != "instance-count" and (only_inst is None or r.instance.startswith(only_inst)) and (has_inst is None or any(h_ in r.instance for h_ in has_inst)):
                     r.rule = "%s<-%s" % (pid, r.rule)
                     ck.results.append(r)
         if tier == "thorough" and only is None:
